@@ -484,6 +484,7 @@ def loop_obligations(rep, tier):
 
 prov_tz = z3.Function("provider_timezone_of", E.S, E.Ref)          # provider.timezone(id): a tzinfo or None
 prov_localize = z3.Function("provider_localize", E.Ref, E.Ref, E.Ref)
+prov_localize_utc = z3.Function("provider_localize_utc", E.Ref, E.Ref)
 clean = z3.Function("strip_slashes", E.S, E.S)
 win = z3.Function("windows_to_olson", E.S, E.S)
 is_win = z3.Function("is_windows_name", E.S, E.B)
@@ -517,6 +518,12 @@ def tzp_engine():
     eng.contracts["ref.timezone"] = ref_timezone
     eng.contracts["ref.localize"] = lambda e, s, a, k: [(s, E.VRef(prov_localize(e.box(a[1], s), e.box(a[2], s))))]
     eng.contracts["ref.get"] = lambda e, s, a, k: [(s, E.VRef(cache_get(e.unbox_known(a[1], s).z)))]
+
+    def ref_localize_utc(engine, st, args, kw):
+        if not z3.eq(args[0].z, provider):
+            raise E.Undecided("localize_utc() on another object")
+        return [(st, E.VRef(prov_localize_utc(engine.box(args[1], st))))]
+    eng.contracts["ref.localize_utc"] = ref_localize_utc
     eng.globals["WINDOWS_TO_OLSON"] = E.VClass("WIN")
 
     def contains(engine, st, c, item):
@@ -606,6 +613,27 @@ def proxy_obligations(rep, tier):
                 k = E.str_of(tz)
                 return z3.Implies(z3.And(is_str, prov_tz(clean(k)) != E.NONE), r == prov_localize(to_dt(d), prov_tz(clean(k))))
             obs.append(compare.ensures(eng, f"{PID}.Z.TZP.localize.a_zone_id_is_resolved_through_TZP.timezone", fn, source.lines_of(node), paths, c3, T))
+        # localize_utc: the link between the UTC descriptor / Component.add (which assume "tzp.localize_utc converts to UTC") and the
+        # providers' localize_utc (shape obligations below): the proxy hands EVERY value to the provider, whatever its offset
+        node = members.get("localize_utc")
+        fn = "timezone/tzp:TZP.localize_utc"
+        if not isinstance(node, ast.FunctionDef):
+            obs.append(ob_from(f"{PID}.Z.TZP.localize_utc", fn, None, UNDECIDED, "not found"))
+        else:
+            rep.functions.add(fn)
+            d = z3.Const("dt", E.Ref)
+            try:
+                st = E.State()
+                paths = eng.run(node, dict(eng.globals, self=self_obj(st), dt=E.VRef(d)), st)
+                o1 = compare.ensures(eng, f"{PID}.Z.TZP.localize_utc.every_value_is_handed_to_the_provider", fn, source.lines_of(node), paths,
+                                     lambda pa: eng.box(pa.value, pa.state) == prov_localize_utc(to_dt(d)), T)
+                o2 = compare.raises_only(eng, f"{PID}.Z.TZP.localize_utc.raises_nothing", fn, source.lines_of(node), paths, [], T)
+                for o in (o1, o2):
+                    if o.status == REFUTED:
+                        o.shape_only = True
+                obs += [o1, o2]
+            except E.Undecided as u:
+                obs.append(ob_from(f"{PID}.Z.TZP.localize_utc.every_value_is_handed_to_the_provider", fn, source.lines_of(node), UNDECIDED, f"outside subset: {u}"))
     except E.Undecided as u:
         obs.append(ob_from(f"{PID}.Z.TZP", "timezone/tzp:TZP", None, UNDECIDED, f"outside subset: {u}"))
     finally:
